@@ -4,6 +4,7 @@ package main
 
 import (
 	"fmt"
+	"go/token"
 	"go/types"
 	"sort"
 	"strings"
@@ -439,20 +440,30 @@ func checkC19(res *Result) {
 					}
 				}
 			}
+			checkDrainTotal(res, p, fn, wait)
 			// error iff len(errs) > 0
 			for _, r := range returnsIn(fn) {
 				mn, nn := ff.errStatus(r, 0)
 				s := ff.at[r]
-				var lenFact string
+				var lenFact string // "true": some failures collected; "false": none
 				if s != nil {
 					for f := range s.facts {
+						if f.k != fTRUE && f.k != fFALSE {
+							continue
+						}
 						for v, n := range ff.ids {
 							if fmt.Sprintf("v%d", n) == f.v {
-								if bo, ok := v.(*ssa.BinOp); ok && bo.Op.String() == ">" {
+								if bo, ok := v.(*ssa.BinOp); ok {
 									if c, ok := bo.X.(*ssa.Call); ok {
 										if bi, ok := c.Common().Value.(*ssa.Builtin); ok && bi.Name() == "len" {
 											if z, ok := intConst(bo.Y); ok && z == 0 {
-												lenFact = f.k.String()
+												holds := f.k == fTRUE
+												switch bo.Op {
+												case token.GTR, token.NEQ: // len > 0, len != 0
+													lenFact = map[bool]string{true: "true", false: "false"}[holds]
+												case token.EQL, token.LEQ: // len == 0, len <= 0
+													lenFact = map[bool]string{true: "false", false: "true"}[holds]
+												}
 											}
 										}
 									}
@@ -691,5 +702,151 @@ func checkTransportMutexes(res *Result, p *Pub) {
 		_, isA1 := allocs["getSignerMu"].(*ssa.Alloc)
 		_, isA2 := allocs["postSignerMu"].(*ssa.Alloc)
 		res.check(isA1 && isA2 && allocs["getSignerMu"] != allocs["postSignerMu"], "C19-R2", fname(f), p.pos(f), "each signer gets a mutex of its own, allocated by the constructor", "mutexes missing or shared")
+	}
+}
+
+
+// checkDrainTotal: every receive from the error channel of BatchDeliver lies in
+// a loop that is left only when the channel is known empty: through the default
+// case of a non-blocking select that has the receive case, through the !ok of a
+// receive on the closed channel, or on len(ch) == 0. A counting loop can stop
+// with failures still buffered (the error then names only some of them).
+func checkDrainTotal(res *Result, p *Pub, fn *ssa.Function, wait ssa.Instruction) {
+	var ch ssa.Value
+	for _, b := range fn.Blocks {
+		for _, ins := range b.Instrs {
+			if mk, ok := ins.(*ssa.MakeChan); ok {
+				ch = mk
+			}
+		}
+	}
+	if ch == nil {
+		res.bad("C19-R4", fname(fn), p.pos(fn), "BatchDeliver collects failures through a channel", "no channel made")
+		return
+	}
+	// the channel variable may live in a cell (it is captured by the goroutines)
+	var cell *ssa.Alloc
+	for _, ref := range *ch.Referrers() {
+		if st, ok := ref.(*ssa.Store); ok && st.Val == ch {
+			cell, _ = st.Addr.(*ssa.Alloc)
+		}
+	}
+	isCh := func(v ssa.Value) bool {
+		v = unwrap(v)
+		if v == ch {
+			return true
+		}
+		if ld, ok := v.(*ssa.UnOp); ok && ld.Op == token.MUL && cell != nil && ld.X == ssa.Value(cell) {
+			return true
+		}
+		return false
+	}
+	type recv struct {
+		ins ssa.Instruction
+		sel *ssa.Select
+		arr *ssa.UnOp
+	}
+	var recvs []recv
+	for _, b := range fn.Blocks {
+		for _, ins := range b.Instrs {
+			switch x := ins.(type) {
+			case *ssa.Select:
+				for _, st := range x.States {
+					if st.Dir == types.RecvOnly && isCh(st.Chan) {
+						recvs = append(recvs, recv{ins: x, sel: x})
+					}
+				}
+			case *ssa.UnOp:
+				if x.Op == token.ARROW && isCh(x.X) {
+					recvs = append(recvs, recv{ins: x, arr: x})
+				}
+			}
+		}
+	}
+	res.check(len(recvs) >= 1, "C19-R4", fname(fn), p.pos(fn), "the failures sent by the goroutines are received", "no receive from the error channel in BatchDeliver")
+	for _, rc := range recvs {
+		loop := loopBlocks(rc.ins.Block())
+		if len(loop) == 0 {
+			res.bad("C19-R4", fname(fn), p.pos(rc.ins), "failures are received in a loop", "a single receive: at most one failure is collected")
+			continue
+		}
+		okAll := true
+		why := ""
+		for b := range loop {
+			for si, s := range b.Succs {
+				if loop[s] {
+					continue
+				}
+				// exit edge b -> s
+				iff, isIf := lastIf(b)
+				if !isIf {
+					okAll, why = false, fmt.Sprintf("the loop is left from block %d unconditionally", b.Index)
+					continue
+				}
+				onTrue := si == 0
+				accepted := false
+				switch c := iff.Cond.(type) {
+				case *ssa.BinOp:
+					// select index test
+					if ex, ok := c.X.(*ssa.Extract); ok {
+						if sel, ok := ex.Tuple.(*ssa.Select); ok && ex.Index == 0 && !sel.Blocking {
+							for _, st := range sel.States {
+								if st.Dir == types.RecvOnly && isCh(st.Chan) {
+									accepted = true
+								}
+							}
+						}
+					}
+					// len(ch) against 0
+					lenOf := func(v ssa.Value) bool {
+						cl, ok := v.(*ssa.Call)
+						if !ok {
+							return false
+						}
+						bi, ok := cl.Common().Value.(*ssa.Builtin)
+						return ok && bi.Name() == "len" && isCh(cl.Common().Args[0])
+					}
+					zero := func(v ssa.Value) bool { n, ok := intConst(v); return ok && n == 0 }
+					if lenOf(c.X) && zero(c.Y) {
+						switch c.Op {
+						case token.GTR, token.NEQ:
+							accepted = !onTrue
+						case token.EQL, token.LEQ:
+							accepted = onTrue
+						}
+					}
+					if zero(c.X) && lenOf(c.Y) {
+						switch c.Op {
+						case token.LSS, token.NEQ:
+							accepted = !onTrue
+						case token.EQL, token.GEQ:
+							accepted = onTrue
+						}
+					}
+				case *ssa.Extract:
+					// v, ok := <-ch ; exit on !ok (closed and empty)
+					if u, ok := c.Tuple.(*ssa.UnOp); ok && u.Op == token.ARROW && u.CommaOk && c.Index == 1 && isCh(u.X) && !onTrue {
+						accepted = true
+						closed := false
+						for _, ci := range callsIn(fn) {
+							if bi, ok := ci.Common().Value.(*ssa.Builtin); ok && bi.Name() == "close" && isCh(ci.Common().Args[0]) && dominates(ci, u) && (wait == nil || dominates(wait, ci)) {
+								closed = true
+							}
+						}
+						if !closed {
+							accepted = false
+							why = "the channel is ranged over without being closed after Wait: the receive blocks for ever"
+						}
+					}
+				}
+				if !accepted {
+					okAll = false
+					if why == "" {
+						why = fmt.Sprintf("the loop can be left from block %d on a condition that does not say the channel is empty (%s): failures still buffered are dropped from the report", b.Index, valueLabel(iff.Cond))
+					}
+				}
+			}
+		}
+		res.check(okAll, "C19-R4", fname(fn), p.pos(rc.ins), "the drain stops only when the channel is empty (default case, closed channel, or len == 0)", why)
 	}
 }
